@@ -194,6 +194,16 @@ func ScopeSpecs() []*Spec {
 	sub.ID = "SubA"
 	sn.Props[0].Type = ref("SubA")
 	out = append(out, &Spec{Kind: KScope, Root: "Root", Objects: []*Spec{sn, sub}})
+	// chains of single-property objects that enter a reference cycle not containing the entry object
+	out = append(out, &Spec{Kind: KScope, Root: "H", Objects: []*Spec{
+		{Kind: KObject, ID: "H", Props: []Prop{{Name: "head", Type: ref("Nd")}}},
+		{Kind: KObject, ID: "Nd", Props: []Prop{{Name: "next", Type: ref("Nd")}}},
+	}})
+	out = append(out, &Spec{Kind: KScope, Root: "R3", Objects: []*Spec{
+		{Kind: KObject, ID: "R3", Props: []Prop{{Name: "x", Type: &Spec{Kind: KList, Item: ref("Pa")}}}},
+		{Kind: KObject, ID: "Pa", Props: []Prop{{Name: "b", Type: ref("Pb")}}},
+		{Kind: KObject, ID: "Pb", Props: []Prop{{Name: "a", Type: ref("Pa")}}},
+	}})
 	// single-property object referring to itself (the lone-value shorthand must not loop)
 	out = append(out, &Spec{Kind: KScope, Root: "L", Objects: []*Spec{
 		{Kind: KObject, ID: "L", Props: []Prop{{Name: "next", Type: ref("L")}}},
